@@ -73,3 +73,26 @@ def c02(ctx):
         "a trusted and an untrusted wrapping key; TLC demands CKR_ATTRIBUTE_SENSITIVE + unavailable length + "
         "untouched buffer exactly when the model says the key is protected, refusal of the wraps the model forbids, "
         "and that no output buffer contains an 8-byte window of a protected value.")
+    if not ctx.violations:
+        concurrent_read(ctx)
+
+
+def concurrent_read(ctx):
+    """C02 "no call returns ...": also a C_GetAttributeValue(CKA_VALUE) of one thread while the refused C_SetAttributeValue of
+    another thread on the same sensitive session key is being rolled back (ConcTok: mksens / badset / readsens)."""
+    import random
+    from checks import conc
+    quick = ctx.tier == "quick"
+    lib = build.libpath(build.build("ossl"))
+    tot = conc.new_tot()
+    tcs = dict(Threads=conc.THREADS, PinSyms='{"P0", "P1", "P2", "PX"}', InitPin='"P0"', Dev="{}")
+    for combo in ([("Ls,Lg", 2, 2500, False, True)] if quick else
+                  [("Ls,Lg", 2, 30000, False, True), ("Ls,Lg", 1, 20000, True, True)]):
+        if not ctx.violations:
+            conc.run_combo(ctx, lib, combo, None, tcs, random.Random(ctx.seed), tot, tagp="c02-")
+    ctx.coverage["concurrent_read_of_sensitive_key"] = dict(
+        schedules=tot["schedules"], executions=tot["executions"], accepted=tot["accepted"],
+        rule="one thread makes a sensitive, unextractable session key and has changes to it refused (rolled back), another "
+             "thread reads CKA_VALUE through its own session at every scheduling point of the first: always "
+             "CKR_ATTRIBUTE_SENSITIVE, never a byte of the value")
+    ctx.coverage["traces_validated_against_impl"] += tot["accepted"]
